@@ -6,6 +6,7 @@
 import DuckModel.Registry
 import DuckModel.Lemmas.RegistryLemmas
 import DuckModel.Props.C15Script
+import DuckModel.Props.C15Dyn
 
 namespace Duck
 
